@@ -147,6 +147,13 @@ def _run_slice(args):
     assert check is not None
     faulthandler.enable()
     warnings.simplefilter("ignore")
+    try:  # a runaway allocation in the code under test must become a MemoryError in this worker, not an OOM kill of the box
+        import resource
+
+        lim = 6 << 30
+        resource.setrlimit(resource.RLIMIT_AS, (lim, lim))
+    except Exception:  # noqa: BLE001
+        pass
     agg = {"n": 0, "fired": collections.Counter(), "probes": collections.Counter(), "keys": set(), "viols": [],
            "digests": {}, "vtime_ns": 0, "samples": [], "viol_count": 0, "errors": []}
     persig: t.Dict[str, int] = collections.Counter()
